@@ -226,6 +226,8 @@ def sequential_case(case):
     sg = harness.load(); nn = sg.nn
     names, form = case["seq"], case["form"]
     built = [_layer(sg, n, k) for k, n in enumerate(names)]
+    if case.get("repeat_first_last") and len(built) >= 2:
+        built[-1] = built[0]                       # the SAME module instance registered in two positions
     mods = [b[0] for b in built]
     if form == "positional": S = nn.Sequential(*mods)
     else:
@@ -233,6 +235,18 @@ def sequential_case(case):
         S = nn.Sequential(collections.OrderedDict(zip(keys, mods)))
     x = np.array([[1.0, -3.0], [-0.25, 2.0]])
     viol = []
+    edit = case.get("edit")
+    if edit:
+        keys = list(S._submodules.keys()) if hasattr(S, "_submodules") else [str(i) for i in range(len(mods))]
+        new = _layer(sg, "inc" if names[0] != "inc" else "double", 7)
+        try:
+            S(sg.Tensor(x.copy()))                 # run once before editing (a cached chain would be built here at the latest)
+            if edit == "replace_first": setattr(S, keys[0], new[0]); built[0] = new
+            elif edit == "replace_last_by_register": S.register_module(keys[-1], new[0]); built[-1] = new
+            elif edit == "append": S.register_module("appended", new[0]); built.append(new)
+        except Exception as ex:
+            return [{"kind": "sequential:edit-raised", "detail": f"{type(ex).__name__}: {ex}"}]
+        mods = [b[0] for b in built]
     try:
         out = S(sg.Tensor(x.copy()))
     except Exception as ex:
@@ -241,7 +255,10 @@ def sequential_case(case):
     for _, f in built: exp = f(exp)
     if out.shape != exp.shape or not np.allclose(np.asarray(out.data, dtype=np.float64), exp, rtol=1e-6, atol=1e-6):
         viol.append({"kind": "sequential:not-composition-in-order", "detail": f"{names} {form}: got {np.asarray(out.data).ravel()}, expected {exp.ravel()}"})
-    expp = [p for m in mods for p in ([m.weight, m.bias] if hasattr(m, "weight") else [])]
+    expp = []
+    for m in mods:
+        for p in ([m.weight, m.bias] if hasattr(m, "weight") else []):
+            if all(p is not q for q in expp): expp.append(p)
     gotp = S.parameters()
     if len(gotp) != len(expp) or any(a is not b for a, b in zip(gotp, expp)):
         viol.append({"kind": "sequential:parameter-order", "detail": f"{names} {form}: parameters() not in registration order"})
@@ -255,6 +272,9 @@ def run(tier, seed):
     depth = 4 if tier == "quick" else 5
     res = explorer.explore(make_world, depth, time_budget=900 if tier == "thorough" else 100)
     seqs = [{"seq": list(c), "form": f} for n in (1, 2, 3) for c in itertools.product(LAYERS, repeat=n) for f in ("positional", "ordered_dict")]
+    seqs += [{"seq": list(c), "form": f, "repeat_first_last": True} for n in (2, 3) for c in itertools.product(LAYERS, repeat=n) for f in ("positional", "ordered_dict")]
+    seqs += [{"seq": list(c), "form": f, "edit": e} for n in (1, 2, 3) for c in itertools.product(LAYERS, repeat=n) for f in ("positional", "ordered_dict")
+             for e in ("replace_first", "replace_last_by_register", "append")]
     nseq = 0
     with harness.quiet():
         for c in seqs:
@@ -269,7 +289,8 @@ def run(tier, seed):
                    "zero_grad on any node, one backward through all trainable parameters; after every event, for every module as "
                    "root: parameters() identity list (each reachable once; order = registration order, slot-keeping or latest-"
                    "registration both accepted), num_params x3, training flags, requires_grad flags, gradient presence; plus all "
-                   f"{nseq} Sequentials of <= 3 layers over {{x*2, x+1, relu, Linear}} positional and OrderedDict"}
+                   f"{nseq} Sequentials of <= 3 layers over {{x*2, x+1, relu, Linear}} positional and OrderedDict, also with the same module instance in two positions and with post-construction edits "
+                   "(replace the first stage by attribute assignment, the last by register_module, append a stage)"}
     return {"level": "model_checking", "violations": res.violations, "coverage": cov,
             "assumptions": ["cycles in the module graph are excluded", "whether zero_grad also clears a frozen parameter's stale gradient is left open",
                             "re-assigning a name may keep its slot (dict semantics) or move to the end; both orders accepted"]}
